@@ -100,7 +100,11 @@ IP::IP(const uint8_t* buffer, uint32_t total_sz) {
     while (stream.pointer() < options_end) {
         option_identifier opt_type = (option_identifier)stream.read<uint8_t>();
         if (!is_single_byte_option(opt_type)) {
-            // Multibyte options with length as second byte
+            // Multibyte options with length as second byte, which has to be
+            // inside the header as well
+            if (TINS_UNLIKELY(stream.pointer() >= options_end)) {
+                throw malformed_packet();
+            }
             const uint32_t option_size = stream.read<uint8_t>();
             if (TINS_UNLIKELY(option_size < (sizeof(uint8_t) << 1))) {
                 throw malformed_packet();
